@@ -72,12 +72,20 @@ impl BlobReader {
         let meta = self
             .read_bytes(header.meta_size() as usize)
             .with_context(|| "read record meta")?;
-        let meta = bincode::deserialize(&meta)?;
 
         let data = self
             .read_bytes(header.data_size() as usize)
             .with_context(|| "read record data")?
             .into();
+
+        // Meta has no checksum. It is checked after the whole record is consumed, so that a record with
+        // damaged meta can be skipped like a record with damaged data
+        let meta_size = meta.len() as u64;
+        let meta: Meta = bincode::deserialize(&meta)
+            .map_err(|err| ToolsError::record_validation_error(format!("record meta: {}", err)))?;
+        if bincode::serialized_size(&meta)? != meta_size {
+            return Err(ToolsError::record_validation_error("record meta size mismatch").into());
+        }
 
         let record = Record { header, meta, data };
         let record = record
